@@ -97,6 +97,38 @@ pub fn run_knn(out: &mut Out, rng: &mut Rng, thorough: bool) {
                 }
             }
         }
+        // adversarial "face trap" (every eighth record): a grid of 1 … 4 unit cells per axis; the particle sits 1 % below (or above)
+        // an INNER face of its cell, its true nearest neighbour 1 % beyond that face, a decoy 40 % of a cell away inside the
+        // same cell. Whatever the search assumes about which faces of a cell have neighbours behind them must be right for every
+        // axis, every index and both directions
+        let mut mcw = mcw;
+        if rep % 8 == 2 {
+            let cd = [1 + rng.below(4) as usize, 1 + rng.below(4) as usize, 1 + rng.below(4) as usize];
+            let axes: Vec<usize> = (0..3).filter(|&a| cd[a] >= 2).collect();
+            if !axes.is_empty() {
+                let ax = axes[rng.below(axes.len() as u64) as usize];
+                let cell = [rng.below(cd[0] as u64) as usize, rng.below(cd[1] as u64) as usize, rng.below(cd[2] as u64) as usize];
+                // an inner face of that cell along `ax`: the upper one unless the cell is the last
+                let upper = if cell[ax] + 1 >= cd[ax] { false } else if cell[ax] == 0 { true } else { rng.bool() };
+                anchor = DVec3::new(-1.0, 2.0, 0.5);
+                width = DVec3::new(cd[0] as f64, cd[1] as f64, cd[2] as f64);
+                mcw = 1.0;
+                bname = "facetrap";
+                let mut pp = anchor + DVec3::new(cell[0] as f64 + 0.5, cell[1] as f64 + 0.5, cell[2] as f64 + 0.5);
+                let face = anchor[ax] + (cell[ax] + if upper { 1 } else { 0 }) as f64;
+                let sgn = if upper { 1.0 } else { -1.0 };
+                pp[ax] = face - sgn * 0.01;
+                let mut q = pp;
+                q[ax] = face + sgn * 0.01;
+                let mut d = pp;
+                d[ax] = pp[ax] - sgn * 0.4;
+                pts.clear();
+                pts.push(pp);
+                pts.push(d);
+                pts.push(q);
+                fam_pts = "ringtrap";
+            }
+        }
         if pts.len() < 2 {
             continue;
         }
